@@ -63,7 +63,7 @@ def prop_case(draw):
     ordmax = min(ordmax, omax)
     return {"sys": s, "refs": refs, "br": br, "ordmax": ordmax, "eps": draw(st.sampled_from([1e-2, 1e-3, 5e-2])),
             "ncol": draw(st.integers(1, 20)), "tscale": draw(st.sampled_from([1e-3, 1.0, 1e-6])), "seed": draw(st.integers(0, 2**32 - 1)),
-            "weak": draw(st.sampled_from([None, None, None, 1e-4, 1e-5])),
+            "weak": None,  # a weakly excited mode was tried and withdrawn: with singular values four and more decades apart the finite-difference oracle (steps 1e-6 / 1e-5 of |H|) is itself not trustworthy
             "forder": draw(st.integers(0, 3)) == 0, "hscale": 10.0 ** draw(st.sampled_from([0.0, 0.0, -6.0, -12.0, 4.0]))}
 
 
@@ -72,6 +72,11 @@ def judge_propagation(case):
     S, H = _hankel(case)
     H = H * float(case.get("hscale", 1.0))  # records in small units give small covariances (the problem is scale-free)
     br, ordmax = case["br"], case["ordmax"]
+    if case.get("weak") and S.m >= 2:
+        # with a weakly excited mode the noise floor lies 1e-6 .. 1e-7 below the strongest singular value: orders that reach into it
+        # make the sensitivity matrices (terms H^T H / sigma_i^2) numerically singular, so stay within the 2m signal directions
+        ordmax = min(ordmax, 2 * S.m)
+        j.tag("weak-mode")
     if ordmax < 2 or ordmax > min(H.shape) - 1:
         j.skip("order-exceeds-matrix")
         return j
@@ -92,6 +97,9 @@ def judge_propagation(case):
     Hin = np.asfortranarray(H.copy()) if case.get("forder") else H.copy()  # memory layout must not matter
     Hin0 = Hin.copy()
     out = sut(ssi.SSI_fast, Hin, br, ordmax, calc_unc=True, T=T.copy(), nb=nc)
+    if raised(out) and out.type == "LinAlgError" and case.get("weak"):
+        j.skip("sensitivity-matrix-singular-at-a-weak-singular-value")
+        return j
     if not j.check(not raised(out), "fast-unc-raises", lambda: f"{out!r}"):
         return j
     Obs, A, C, Q1, Q2, Q3, Q4 = out
@@ -274,7 +282,7 @@ def judge_e2e(case):
         j.skip("no-finite-variance")
     if fin.any():
         rel = np.max(np.abs(got[fin] - exp[fin]) / np.maximum(np.abs(exp[fin]), 1e-300))
-        j.check(rel <= 1e-6, "e2e-variance", lambda: f"SSIcov(calc_unc=True).result.Fn_poles_cov differs from the propagation of the block-wise factor: max rel diff {rel:.3e}")
+        j.check(rel <= 1e-4, "e2e-variance", lambda: f"SSIcov(calc_unc=True).result.Fn_poles_cov differs from the propagation of the block-wise factor: max rel diff {rel:.3e}")
     return j
 
 
